@@ -509,6 +509,7 @@ def gen_cases(tier, rng):
 # ---------------------------------------------------------------------------------------------
 
 def gen_sim_cases(tier, rng):
+    yield from _span_cases()
     n = 900 if tier == "thorough" else 160
     for i in range(n):
         nf = rng.choice([1, 1, 2, 3])
@@ -577,6 +578,16 @@ def sim_oracle(case, o):
     if "harness_exception" in o:
         return []
     bad = []
+    if "_fields" in o and not case.get("malformed"):
+        # the register of a circuit: every field hosting a particle of one of its instructions, each once
+        want = []
+        for g in case["gates"]:
+            for fid, _ in g["particles"]:
+                if fid not in want:
+                    want.append(fid)
+        got = [f[0] for f in o["_fields"]]
+        if sorted(got) != sorted(want):
+            bad.append(("C05:fields:not-the-fields-of-the-particles", f"circ.fields() lists fields {got}, the instructions act on particles of fields {want}"))
     if "_M" in o:
         if "psi" not in o:
             bad.append(("C05:statevector:raised", f"StatevectorSimulator.run failed on a gate-only circuit whose matrix exists: {o.get('msg')}"))
@@ -902,6 +913,20 @@ def _net_fixed_cases():
     yield dict(base, malformed=True, gates=[{"gate": H, "particles": [[0, -1]]}])
     yield dict(base, malformed=True, field_defs=[[1, 2, 3]], order=[1], gates=[{"gate": H, "particles": [[1, 0]]}])   # local dimension 3
     yield dict(base, malformed=True, field_defs=[[1, 2, 3]], order=[1], gates=[])
+
+
+def _span_cases():
+    """every multi-wire gate class ALONE in a circuit and spanning two fields, in both orders: the circuit's register (circ.fields()) must
+    consist of both fields although no other instruction mentions them"""
+    two = {"op": "sim.statevector", "field_defs": [[0, 2, 2], [2, 2, 2]], "order": [0, 2]}
+    Ry = lambda t: {"kind": "single", "cls": "RyGate", "args": [t]}
+    gds = [{"kind": "iswap"}] + [{"kind": "rzz", "cls": c, "theta": 0.7} for c in ("RxxGate", "RyyGate", "RzzGate")] + \
+          [{"kind": "phase", "phi": 0.4, "m": 2}, {"kind": "controlled", "nc": 1, "ctrl_state": [1], "target": Ry(0.3)},
+           {"kind": "controlled", "nc": 1, "ctrl_state": [0], "target": Ry(0.3)}, {"kind": "multiplexed", "nc": 1, "targets": [Ry(0.2), Ry(-0.9)]},
+           {"kind": "prepare", "m": 2, "vec": [0.5, -0.25, 0.0, 0.25], "transpose": False}]
+    for gd in gds:
+        for ps in ([[0, 1], [2, 0]], [[2, 1], [0, 0]]):
+            yield dict(two, gates=[{"gate": gd, "particles": ps}])
 
 
 def gen_net_cases(tier, rng):
